@@ -348,7 +348,7 @@ func TopFrpFrame(stack string) string {
 	for _, ln := range strings.Split(stack, "\n") {
 		ln = strings.TrimSpace(ln)
 		if strings.HasPrefix(ln, "github.com/fatedier/frp/") {
-			if i := strings.Index(ln, "("); i > 0 {
+			if i := strings.LastIndex(ln, "("); i > 0 { // strip the argument list, keep "(*T).Method"
 				ln = ln[:i]
 			}
 			return strings.TrimPrefix(ln, "github.com/fatedier/frp/")
